@@ -186,13 +186,25 @@ def Header.serialize (h : Header) : Except Err (List Line) :=
 
 def two (s : Line) : Option Nat := if s.length = 2 then digitsVal s else none
 
-/-- `strptime(s, "%m%d%y%H%M")` for ten digits forming a valid date (day ≤ 28 only, so that the
-calendar is not modelled); everything else non-blank is outside the model. -/
+/-- Days of a month; the two-digit year `y` stands for 1969…2068, where `y % 4 = 0` is exactly
+the leap years (2000 is one). -/
+def daysIn (mo y : Nat) : Nat :=
+  match mo with
+  | 2 => if y % 4 = 0 then 29 else 28
+  | 4 | 6 | 9 | 11 => 30
+  | _ => 31
+
+def timeOk : Nat × Nat × Nat × Nat × Nat → Bool
+  | (mo, d, y, h, mi) => 1 ≤ mo && mo ≤ 12 && 1 ≤ d && d ≤ daysIn mo y && y ≤ 99 && h ≤ 23 && mi ≤ 59
+
+/-- `strptime(s, "%m%d%y%H%M")` for ten digits forming a valid date; everything else non-blank is
+outside the model (the code warns and returns `None`, but `strptime` accepts more than ten
+digits' worth of shapes). -/
 def parseTime (s : Line) : Except Err (Option (Nat × Nat × Nat × Nat × Nat)) :=
   if (strip s).isEmpty then .ok none else
   match two (slice 0 2 s), two (slice 2 4 s), two (slice 4 6 s), two (slice 6 8 s), two (slice 8 10 s) with
   | some mo, some d, some y, some h, some mi =>
-    if s.length = 10 ∧ 1 ≤ mo ∧ mo ≤ 12 ∧ 1 ≤ d ∧ d ≤ 28 ∧ h ≤ 23 ∧ mi ≤ 59 then .ok (some (mo, d, y, h, mi))
+    if s.length = 10 ∧ timeOk (mo, d, y, h, mi) = true then .ok (some (mo, d, y, h, mi))
     else .error unmodelled
   | _, _, _, _, _ => .error unmodelled
 
@@ -203,5 +215,50 @@ def Header.deserialize : List Line → Except Err Header
     pure ⟨strip l0, strip (slice 0 2 l1), strip (slice 2 10 l1), t, strip (slice 20 22 l1),
           strip (slice 22 34 l1), strip (slice 34 46 l1), strip (slice 46 52 l1), strip l2⟩
   | _ => .error .indexError
+
+/-! ## Whole records and files -/
+
+/-- An `SDRecord` as the user builds it: header, structure (`set_structure`), metadata. -/
+structure SDRec where
+  header : Header
+  mol : Mol
+  md : Metadata
+  deriving DecidableEq, Repr
+
+/-- What is read back from a record: `.header`, `.get_structure()`, `.metadata`. -/
+structure SDRecR where
+  header : Header
+  mol : MolR
+  md : Metadata
+  deriving DecidableEq, Repr
+
+/-- `SDRecord.serialize()` (as lines) after `set_structure(atoms, default_bond_type, version)`. -/
+def SDRec.serialize (r : SDRec) (d : Nat) (v : Version) : Except Err (List Line) := do
+  let hl ← r.header.serialize
+  let cl ← writeCtab r.mol d v
+  pure (hl ++ cl ++ Metadata.serialize r.md)
+
+/-- `SDRecord.deserialize(text)` followed by `.header`, `.get_structure()`, `.metadata`
+(the code wraps header/metadata errors into `DeserializationError`; only the success path and the
+empty-CTAB check are modelled here). -/
+def SDRec.deserialize (lines : List Line) : Except Err SDRecR := do
+  let p := recordParts lines
+  let h ← Header.deserialize p.1
+  if p.2.1.isEmpty then .error .invalidFile else
+  let m ← readCtab p.2.1
+  let md ← Metadata.deserialize p.2.2
+  pure ⟨h, m, md⟩
+
+/-- `SDFile` with one record per molecule name, `serialize()` as lines. -/
+def sdfSerialize (rs : List SDRec) (d : Nat) (v : Version) : Except Err (List Line) := do
+  let recs ← rs.mapM fun r => r.serialize d v
+  pure (joinRecords recs)
+
+/-- `SDFile.deserialize(text)` and every record read completely: `(name, record)` in file order. -/
+def sdfDeserialize (lines : List Line) : Except Err (List (Line × SDRecR)) := do
+  let recs ← splitRecords lines
+  recs.mapM fun nr => do
+    let r ← SDRec.deserialize nr.2
+    pure (nr.1, r)
 
 end BiotiteModel.C18
